@@ -179,7 +179,7 @@ class C15(World):
         finally:
             self.in_mutation_probe = False
         plan = self.crash_plan
-        if plan is not None and self.sim.is_task():
+        if plan is not None and self.sim.is_task() and kind not in ("mkdir",):
             self.crash_seen += 1
             if not plan["torn"] and self.crash_seen > plan["at"]:
                 self.real_crash(f"right after {kind} of {base}")
@@ -475,9 +475,9 @@ class C15(World):
                     sim.count("fault.clock.jump")
             self.probe_all("before " + f"op{len(self.ops)}", charge=False)
             over = self.overrides()
-            if ch.flag("op.crash", 0.12):
+            if ch.flag("op.crash", 0.2):
                 # a real kill -9 somewhere inside this call; the history then continues in a new process
-                self.crash_plan = {"at": ch.pick("op.crash.at", 8), "torn": ch.flag("op.crash.torn", 0.35)}
+                self.crash_plan = {"at": ch.pick("op.crash.at", 5), "torn": ch.flag("op.crash.torn", 0.3)}
                 self.crash_seen = 0
                 self.crashed = None
                 client = clients[slot.n]
